@@ -445,8 +445,10 @@ def check_case(case, props):
                 # soc_solve works on an expanded program (extra columns); exp cones are approximated, so only programs
                 # without exp cones are comparable; the failure semantics above apply to it in full
                 stats['probes']['healthy_soc_solve'] = stats['probes'].get('healthy_soc_solve', 0) + 1
-                if cls != 'EXP' and best:
-                    o2 = list(best.values())[0]
+                if cls != 'EXP' and sv in best:
+                    # compared with the SAME interface's solve(): an engine's own quirk (e.g. the HiGHS presolve defect)
+                    # then shows on both sides and cancels
+                    o2 = best[sv]
                     if abs(o2 - st['obj']) > max(tol * 10, 3e-4 if cls in ('MILP', 'MISOCP') else 0) * (1 + abs(o2)):
                         viol('soc-solve-disagrees', '%s: soc_solve gives %.9g, solve gave %.9g on a program without exp cones'
                              % (sv, st['obj'], o2), [eng])
